@@ -5773,3 +5773,155 @@ def pv4(m, run, rule='PV4.pivoting-per-order-type'):
     run.ob(rule, '%s :: %d order types of column magnitudes, n = 1..3' % (fi.key, cnt), not bad,
            'P is a permutation matrix, the matrix returned is P A with maximal pivots, the sign is the signature of P, the input is untouched' if not bad else
            '%s: %s   [%d of %d cases]' % (bad[0][0], bad[0][1], len(bad), cnt), 'geomdl/linalg.py:%d in %s' % (fi.node.lineno, fi.key))
+
+
+# ====================================================================================== C18: bounding box per order type of the coordinates
+def bb2(m, run, rule='BB2.bounding-box-per-order-type'):
+    """BB2: utilities.evaluate_bounding_box touches the coordinates only through order comparisons (and with the infinities it starts
+    from), so its result is fixed by the weak order of the values of each coordinate.  Interpreted on 1 .. 3 (thorough: 4) points in the
+    plane and in space whose coordinates are order tokens, every combination of weak orders (ties included): the result is a pair
+    (minimum corner, maximum corner) whose coordinate c is the least / greatest c-coordinate among the points - the very tokens"""
+    import itertools
+    fi = m.func('utilities.evaluate_bounding_box')
+
+    def weak_orders(n):
+        return sorted({r for r in itertools.product(range(n), repeat=n) if set(r) == set(range(max(r) + 1))})
+    bad, cnt = [], 0
+    for n in range(1, 5 if run.tier == 'thorough' else 4):
+        wo = weak_orders(n)
+        for dim in (2, 3):
+            combos = itertools.product(wo, repeat=dim) if (dim == 2 or n <= 2) else ((a_, b_, wo[(ia + ib) % len(wo)]) for ia, a_ in enumerate(wo) for ib, b_ in enumerate(wo))
+            for orders in combos:
+                cnt += 1
+                P = [[Ord(orders[c][i] + 10 * c) for c in range(dim)] for i in range(n)]
+                sk = SK(m, {})
+                why = None
+                try:
+                    out = sk.call(fi, [P], {})
+                    if not isinstance(out, tuple) or len(out) != 2 or any(not isinstance(x, (tuple, list)) or len(x) != dim for x in out):
+                        why = 'the result %r is not (minimum corner, maximum corner)' % (out,)
+                    else:
+                        for c in range(dim):
+                            lo, hi = min(orders[c]) + 10 * c, max(orders[c]) + 10 * c
+                            g_lo, g_hi = getattr(out[0][c], 'rank', None), getattr(out[1][c], 'rank', None)
+                            if g_lo != lo or g_hi != hi:
+                                why = 'coordinate %d: the box is [%r, %r], the points span [%r, %r] (ranks)' % (c, out[0][c], out[1][c], lo, hi)
+                                break
+                except Violation as v:
+                    why = '%s %s' % (v.msg, v.where())
+                except Unsupported as ex:
+                    raise AnalysisError('%s: interpreter met an unsupported construct: %s' % (fi.key, ex))
+                if why:
+                    bad.append(('%d points with coordinate ranks %s' % (n, [list(o_) for o_ in orders]), why))
+    run.ob(rule, '%s :: %d order types' % (fi.key, cnt), not bad, 'coordinate-wise minimum and maximum of the points' if not bad else '%s: %s   [%d of %d cases]' % (bad[0][0], bad[0][1], len(bad), cnt),
+           'geomdl/utilities.py:%d in %s' % (fi.node.lineno, fi.key))
+
+
+# ====================================================================================== C18: polyline length
+def ln2(m, run, rule='LN2.length-is-the-sum-of-consecutive-chords'):
+    """LN2: operations.length_curve interpreted on a curve stand-in with 1 .. 6 labelled evaluated points, linalg.point_distance replaced by a
+    symbolic chord d{i,j} of the two points it is given: the result is exactly d{0,1} + d{1,2} + ... + d{n-2,n-1} (0 for a single point) -
+    every consecutive pair once, nothing else"""
+    from .skel import Sym
+    from .poly import Poly
+    fi = m.func('operations.length_curve')
+    bad, cnt = [], 0
+    for n in range(1, 7):
+        cnt += 1
+        P = pts(n, 3, labelled=True)
+        obj = Bag('rec:Curve', evalpts=P, pdimension=1, rational=False, dimension=3, type='spline')
+        obj._a['__isa__'] = (('BSpline', 'Curve'),)
+
+        def dist(sk, node, a, b):
+            fa, fb = footprint(a), footprint(b)
+            if not fa or not fb or len(fa) != 1 or len(fb) != 1:
+                raise Violation('LN2', 'point_distance is not given two of the evaluated points', node)
+            i, j = sorted([next(iter(fa)), next(iter(fb))])
+            return Sym('d%s_%s' % (i, j))
+        ab = dict(STD_ABSTRACTED)
+        ab[('linalg', 'point_distance')] = Py(dist, 'point_distance')
+        sk = SK(m, ab)
+        sk.exact = True
+        why = None
+        try:
+            out = sk.call(fi, [obj], {})
+            want = Poly()
+            for i in range(n - 1):
+                want = want + Poly.atom('d%d_%d' % (i, i + 1))
+            s_ = _as_sym(out)
+            if s_ is None or not s_.same(Sym(want)):
+                why = 'returns %r, the polyline through the %d points has length %r' % (out, n, want)
+        except Violation as v:
+            why = '%s %s' % (v.msg, v.where())
+        except Unsupported as ex:
+            raise AnalysisError('%s: interpreter met an unsupported construct: %s' % (fi.key, ex))
+        if why:
+            bad.append(('%d evaluated points' % n, why))
+    run.ob(rule, '%s :: 1 .. 6 evaluated points' % fi.key, not bad, 'sum over consecutive pairs of the sampled points' if not bad else '%s: %s   [%d of %d cases]' % (bad[0][0], bad[0][1], len(bad), cnt),
+           'geomdl/operations.py:%d in %s' % (fi.node.lineno, fi.key))
+
+
+# ====================================================================================== C12 / C18: the container's box follows its elements
+def cb2(m, run, rule='CB2.container-box-follows-its-elements'):
+    """CB2: a real multi.CurveContainer / SurfaceContainer holding two shapes of the real classes (coordinates are order tokens) is asked for
+    its bounding box, then one element gets new control points through its own setter (so that the box must grow), then the container is
+    asked again: the second answer is the box of the new state (the coordinate-wise extremes of the two element boxes), not the first
+    answer; the same after replacing the control points of the other element and after adding a third element"""
+    for cname, degs, sizes in (('Curve', (1,), (3,)), ('Surface', (1, 1), (2, 3))):
+        pdim = len(degs)
+        total = 1
+        for s_ in sizes:
+            total *= s_
+        key = 'multi.%sContainer.bbox :: read, edit an element, read again' % cname
+        ab = dict(STD_ABSTRACTED)
+        ab[('knotvector', 'normalize')] = Py(lambda sk, node, kv, *a, **k: [Ord(x.rank) for x in kv], 'knotvector.normalize')
+        sk = SK(m, ab)
+        sk.construct = True
+        why = None
+
+        def mk(base):
+            o_ = sk.apply(('class', ('BSpline', cname)), [], {}, None)
+            sfx = [''] if pdim == 1 else ['_' + 'uvw'[d] for d in range(pdim)]
+            for d in range(pdim):
+                sk.call(m.lookup(o_._cls, 'degree' + sfx[d], 'setters'), [o_, degs[d]], {})
+            setpts(o_, base)
+            for d in range(pdim):
+                p, n = degs[d], sizes[d]
+                sk.call(m.lookup(o_._cls, 'knotvector' + sfx[d], 'setters'), [o_, [Ord(r) for r in [0] * (p + 1) + list(range(1, n - p)) + [n - p] * (p + 1)]], {})
+            return o_
+
+        def setpts(o_, base):
+            rows = [[Ord(base + i + 100 * c) for c in range(3)] for i in range(total)]
+            sk.call(m.lookup(o_._cls, 'set_ctrlpts', 'methods'), [o_, rows] + (list(sizes) if pdim > 1 else []), {})
+
+        def box(cont):
+            b = sk.call(m.lookup(cont._cls, 'bbox', 'getters'), [cont], {})
+            return tuple(tuple(getattr(x, 'rank', None) for x in corner) for corner in b) if isinstance(b, (tuple, list)) and len(b) == 2 else b
+
+        def want(bases):
+            lo, hi = min(bases), max(bases) + total - 1
+            return (tuple(lo + 100 * c for c in range(3)), tuple(hi + 100 * c for c in range(3)))
+        try:
+            a_, b_ = mk(10), mk(20)
+            cont = sk.apply(('class', ('multi', cname + 'Container')), [a_, b_], {}, None)
+            steps = [('first read', None, (10, 20))]
+            steps.append(('after new control points for the second element', lambda: setpts(b_, 50), (10, 50)))
+            steps.append(('after new control points for the first element', lambda: setpts(a_, 1), (1, 50)))
+
+            def add_third():
+                c_ = mk(70)
+                sk.call(m.lookup(cont._cls, 'add', 'methods'), [cont, c_], {})
+            steps.append(('after adding a third element', add_third, (1, 50, 70)))
+            for what, act, bases in steps:
+                if act is not None:
+                    act()
+                got = box(cont)
+                if got != want(bases):
+                    why = '%s the container reports the box %r; its elements span %r (ranks)%s' % (what, got, want(bases), ' - a stale aggregate' if act is not None else '')
+                    break
+        except Violation as v:
+            why = '%s %s' % (v.msg, v.where())
+        except Unsupported as ex:
+            raise AnalysisError('%s: interpreter met an unsupported construct: %s' % (key, ex))
+        g = m.lookup(('multi', cname + 'Container'), 'bbox', 'getters')
+        run.ob(rule, key, why is None, 'every read gives the box of the current elements' if why is None else why, 'geomdl/multi.py:%s in %s' % (g.node.lineno if g else '?', g.key if g else 'bbox'))
